@@ -401,6 +401,71 @@ theorem trapz_insert_linear (a fa b fb t : Rat) (rest : Knots) (hab : a ≠ b) :
   field_simp
   ring
 
+/-- **Additivity of `integral` over a knot**: for `a ≤ b ≤ c` with `b` a time stamp of the
+    variable (or of its history), `integral(a, c) = integral(a, b) + integral(b, c)` — in every
+    interpolation mode, for windows reaching into the history or beyond the horizon. -/
+theorem integral_additive_at_knot (p : Prob) (name : String) (v : SVar) (a b c : Rat)
+    (ia ib ic : Rat) (hist : Knots) (kb : Rat × Rat)
+    (hv : p.svars.lookup (p.canon name).1 = some v)
+    (hab : a ≤ b) (hbc : b ≤ c)
+    (hw : windowHist v (p.canon name).2 a (v.times.headD 0) = some hist)
+    (hH : ∀ k ∈ hist, k.1 < v.times.headD 0)
+    (hsK : Sorted (hist ++ v.resultKnots (p.canon name).2))
+    (hkb : kb ∈ hist ++ v.resultKnots (p.canon name).2) (hb : kb.1 = b)
+    (h1 : integral p name (some a) (some b) = some ia)
+    (h2 : integral p name (some b) (some c) = some ib)
+    (h3 : integral p name (some a) (some c) = some ic) :
+    ic = ia + ib := by
+  -- unpack the three calls
+  obtain ⟨k1, hk1, rfl⟩ := Option.map_eq_some_iff.1 h1
+  obtain ⟨k2, hk2, rfl⟩ := Option.map_eq_some_iff.1 h2
+  obtain ⟨k3, hk3, rfl⟩ := Option.map_eq_some_iff.1 h3
+  obtain ⟨hist1, x01, xf1, hw1, rfl, e01, ef1⟩ := statesTimesIn_spec p name v a b k1 hv hk1
+  obtain ⟨hist2, x02, xf2, hw2, rfl, e02, ef2⟩ := statesTimesIn_spec p name v b c k2 hv hk2
+  obtain ⟨hist3, x03, xf3, hw3, rfl, e03, ef3⟩ := statesTimesIn_spec p name v a c k3 hv hk3
+  have e1 : hist1 = hist := Option.some.inj (hw1.symm.trans hw)
+  have e3 : hist3 = hist := Option.some.inj (hw3.symm.trans hw)
+  subst e1 e3
+  -- the history the middle call sees contributes the same knots to its window
+  have hmid : inWindow b c hist2 = inWindow b c hist3 := by
+    unfold windowHist at hw hw2
+    by_cases hbf : b < v.times.headD 0
+    · have haf : a < v.times.headD 0 := lt_of_le_of_lt hab hbf
+      rw [if_pos haf] at hw
+      rw [if_pos hbf] at hw2
+      rw [hw] at hw2
+      exact congrArg _ (Option.some.inj hw2).symm
+    · rw [if_neg hbf] at hw2
+      have : hist2 = [] := (Option.some.inj hw2).symm
+      rw [this, inWindow_eq_nil_of_lt b c hist3 (fun k hk => lt_of_lt_of_le (hH k hk) (not_lt.1 hbf))]
+      rfl
+  rw [hmid] at e02 ef2 ⊢
+  simp only [← inWindow_append] at e01 ef1 e02 ef2 e03 ef3 ⊢
+  obtain ⟨pre, post, s1, s2, s3⟩ :=
+    inWindow_split a b c (hist3 ++ v.resultKnots (p.canon name).2) hsK hab hbc kb hkb hb
+  -- end points
+  have hx0 : x01 = x03 :=
+    EndOK_unique p name _ _ a x01 x03
+      (by rw [hasTime_inWindow a b a _ (le_refl a) hab, hasTime_inWindow a c a _ (le_refl a) (le_trans hab hbc)])
+      e01 e03
+  have hxf : xf2 = xf3 :=
+    EndOK_unique p name _ _ c xf2 xf3
+      (by rw [hasTime_inWindow b c c _ hbc (le_refl c), hasTime_inWindow a c c _ (le_trans hab hbc) (le_refl c)])
+      ef2 ef3
+  have hxf1 : xf1 = [] := by
+    apply EndOK_of_hasTime p name _ b xf1 _ ef1
+    rw [s1, ← hb]
+    exact hasTime_of_mem _ kb (by simp)
+  have hx02 : x02 = [] := by
+    apply EndOK_of_hasTime p name _ b x02 _ e02
+    rw [s2, ← hb]
+    exact hasTime_of_mem _ kb (by simp)
+  subst hx0 hxf hxf1 hx02
+  rw [s1, s2, s3]
+  have := trapz_append (x01 ++ pre) kb (post ++ xf2)
+  simp only [List.append_assoc, List.nil_append, List.append_nil, List.cons_append] at this ⊢
+  simpa using this
+
 /-! ## `map_path_expression` -/
 
 /-- **Stamp by stamp**: the initial evaluation followed by the map over the remaining steps is the
@@ -574,6 +639,12 @@ example : statesTimesIn exP "y" (some (-1)) (some 9)
 example : statesTimesIn exP "x" (some (7/2)) (some (15/4)) = some [(7/2, 15), (15/4, 35/2)] := by decide +kernel
 example : integral exP "x" none none = some 60 := by decide +kernel
 example : statesTimesIn exP "c" none none = none := by decide +kernel
+-- additivity over the knots t = 4 and t = t0 = 3 (the latter with a window reaching into the history)
+example : integral exP "x" (some 3) (some 4) = some 15 ∧ integral exP "x" (some 4) (some (11/2)) = some 45
+    ∧ integral exP "x" (some 1) (some 3) = some 12 ∧ integral exP "x" (some 1) (some 4) = some 27 := by
+  decide +kernel
+example : windowHist exV false 1 3 = some [(0, 3), (1, 2)]
+    ∧ Sorted ([(0, 3), (1, 2)] ++ exV.resultKnots false) := by decide +kernel
 
 def exMP : MapProb :=
   ⟨3, [3, 4, 11/2], [⟨exV, 0⟩, ⟨⟨4, [3, 11/2], [1, 3], 1, none, none⟩, 2⟩], [⟨[(3, 1), (4, 2)], 1⟩], [], [2]⟩
